@@ -208,6 +208,18 @@ func checkC16(c *oracleCtx, flags string, ops []customOp, src string, wantValid 
 				return
 			}
 		}
+		// a second parser built from the same builder and used while this one is mid-parse (a plugin parsing an embedded
+		// snippet) must not disturb this parser's context answers
+		for _, snippet := range []string{"if (q) { function h() { { q; } } }", "{ { { q; } } }", "function k() { return function() { q; }; }"} {
+			su2 := su
+			su2.nested = snippet
+			o2 := runParse(su2, src)
+			if o2.ctx != 0 || o2.inFn || strings.Join(o2.trace, ",") != strings.Join(o.trace, ",") {
+				c.violation("nested-parser-disturbs", "with a second parser from the same builder parsing `"+snippet+"` inside a statement interceptor, the context answers of the outer parser change "+
+					firstDiff(strings.Join(o.trace, ","), strings.Join(o2.trace, ",")), input)
+				return
+			}
+		}
 	})
 }
 
